@@ -81,6 +81,10 @@ def partialTraceSparse (dims : List Nat) (keep : List Bool) (ρ : List (Nat × N
     if part true dims keep e.1 = a ∧ part true dims keep e.2.1 = b
         ∧ part false dims keep e.1 = part false dims keep e.2.1 then acc + e.2.2 else acc) 0
 
+/-- dense operator denoted by a sparse entry list (repeated positions add up) -/
+def denseOf (es : List (Nat × Nat × α)) (x y : Nat) : α :=
+  es.foldl (fun acc e => if e.1 = x ∧ e.2.1 = y then acc + e.2.2 else acc) 0
+
 /-- `sorted(set(keep_index))` as a mask over `range n` -/
 def maskOf (n : Nat) (keepIdx : List Nat) : List Bool := (List.range n).map fun i => keepIdx.contains i
 
